@@ -23,6 +23,7 @@ import r_chain
 import r_decodelen
 import r_powers
 import r_admit
+import r_spec
 import r_outcover
 import r_residue
 import r_tape
@@ -538,6 +539,7 @@ def c12(facts, tier):
     r_encadmit.run_component_modulus(facts, rep)
     r_outcover.run(facts, rep, floor=2, **({"files": tuple({facts.items[p]["file"] for p in facts.hir})} if tier == "thorough" else {}))
     r_contra.run_wrapcast(facts, rep, None if tier == "thorough" else {"src/ckks_encoder.rs", "src/batch_encoder.rs"})
+    r_spec.run_round(facts, rep)
     return rep
 
 
@@ -750,6 +752,7 @@ def c16(facts, tier):
                  "shape of the empirical distributions, the numeric bound 21.")
     r_rngprov.run_c16(facts, rep)
     r_rngprov.run_noise(facts, rep)
+    r_spec.run_bias(facts, rep)
     return rep
 
 
@@ -821,6 +824,7 @@ def c13(facts, tier):
     r_contra.run_dropped_carry(facts, rep, None if tier == "thorough" else {"src/context.rs", "src/modulus.rs", "src/encryption_parameters.rs"})
     n_loops, _ = r_loop.run(facts, rep, scope_files={"src/context.rs", "src/modulus.rs", "src/encryption_parameters.rs"},
                             level_walk=False)
+    r_spec.run_stdtable(facts, rep)
     return rep
 
 
